@@ -141,7 +141,10 @@ def relNoDec1 (d : α) (last : Option α) (loss : α) : Bool :=
     else Scalar.lt l (k 0)                  -- l/0 = +inf (l>0, not <d), -inf (l<0, <d), NaN (l=0, not <d)
 
 /-- `torch.all((self.last - loss)/loss < self.decreasing)` — `last` is `inf` (0-dim, broadcast) or the
-previous loss of the same shape -/
+previous loss **of the same number of elements**.  `List.zip` truncates when the lengths differ, which is NOT what
+torch does there (it broadcasts or raises): this flat model is only meaningful for histories whose batch size is
+constant between resets — every theorem about it carries that hypothesis, the driver refuses other inputs, and the
+shape-aware model `Pose/Model/StopX.lean` (`relNoDecT`) covers changing shapes. -/
 def relNoDec (d : α) (last : Option (List α)) (loss : List α) : Bool :=
   match last with
   | none => loss.all (fun x => relNoDec1 d none x)
@@ -176,11 +179,6 @@ inductive Ev (α : Type) where
 def rtbEv (c : Cfg) (d tol : α) (s : RtbSt α) : Ev α → RtbSt α
   | .step loss => rtbStepNum c d tol s loss
   | .reset => rtbResetNum s
-
-/-- states after each event of a history -/
-def rtbTrace (c : Cfg) (d tol : α) : RtbSt α → List (Ev α) → List (RtbSt α)
-  | _, [] => []
-  | s, e :: es => let s' := rtbEv c d tol s e; s' :: rtbTrace c d tol s' es
 
 /-- state after `n` numeric steps fed with `loss 0 … loss (n-1)` -/
 def rtbRunNum (c : Cfg) (d tol : α) (s : RtbSt α) (loss : Nat → List α) : Nat → RtbSt α
